@@ -318,5 +318,40 @@ def rule_r6(ctx, marker=None) -> RuleResult:
             out.bad(Finding("C08.R6", f.file, f.function, f.construct, f.message, f.line))
     return out
 
+def rule_r7(ctx) -> RuleResult:
+    """'the frame's arguments are the call's arguments': for a vector of arguments, make_frame fills the table in one pass in
+    call order (same argument as C04.R8 -- an explicit `1=x` followed by a positional argument yields the positional one,
+    as in the equivalent template call)."""
+    rr = RuleResult("C08.R7", "make_frame fills the argument table in one pass in call order", min_instances=1)
+    mf = ctx.fn(MF)
+    parents = ctx.index.mod("luaexec").parents
+    sites = X.map_fill_sites([mf], "frame_args", parents)
+    list_sites = []
+    for store, ls in sites:
+        own = [l for l in ls if isinstance(l, (ast.For, ast.DictComp))]
+        if own and X.iterates_vector(own[0], {"args.items()"}):
+            continue  # the dict branch: keys are unique, order is irrelevant
+        list_sites.append((store, own))
+    if not list_sites:
+        raise AnalysisError("make_frame: no store into frame_args for an argument vector found")
+    loops = set()
+    for store, own in list_sites:
+        if not own:
+            rr.bad(Finding("C08.R7", LX, MF, unparse(store)[:70], "an entry is put into the argument table outside the loop over the arguments", store.lineno))
+        elif not X.iterates_vector(own[0], {"args"}):
+            what = unparse(own[0].iter)[:50] if isinstance(own[0], ast.For) else unparse(own[0].generators[0].iter)[:50]
+            rr.bad(Finding("C08.R7", LX, MF, unparse(store)[:70],
+                           "this entry is stored by a loop over `{}`, not over the arguments in the order written: "
+                           "`{{{{#invoke:m|f|1=x|a}}}}` gives args[1] = 'x' where the equivalent template call passes `a`".format(what), store.lineno))
+        else:
+            loops.add(id(own[0]))
+    if not rr.findings:
+        if len(loops) == 1:
+            rr.ok(MF, "all stores for an argument vector sit in the one loop over args")
+        else:
+            rr.bad(Finding("C08.R7", LX, MF, "frame_args filled by {} loops".format(len(loops)), "the argument table is filled by more than one pass", mf.lineno))
+    return rr
+
+
 def run(ctx) -> list:
-    return [rule_r1(ctx), rule_r2(ctx), rule_r3(ctx), rule_r4(ctx), rule_r5(ctx), rule_r6(ctx)]
+    return [rule_r1(ctx), rule_r2(ctx), rule_r3(ctx), rule_r4(ctx), rule_r5(ctx), rule_r6(ctx), rule_r7(ctx)]
